@@ -321,6 +321,9 @@ var $internalize = (v, t, recv, seen, makeWrapper) => {
                     return new mapType($internalize(v, mapType, recv, seen, makeWrapper));
             }
         case $kindMap:
+            if (v == null) {
+                return t.zero();
+            }
             var m = new Map();
             seen.get(t).set(v, m);
             var keys = $keys(v);
